@@ -37,6 +37,17 @@ def _finite(a):
         return False
 
 
+def _in_foreign_oracle():
+    """True while C06's in-situ contracts apply the solver's closures to the identity (those extra evaluations are the
+    oracle's, not the solver's, and must not enter the call log)."""
+    m = sys.modules.get("vlib.monitors_c06")
+    return bool(m is not None and getattr(m, "IN_ORACLE", False))
+
+
+class LogicalBudgetExceeded(Exception):
+    """Raised by the RecordingObjective when the solver made more gradient calls than the harness's logical budget."""
+
+
 _rec_cls = {}
 
 
@@ -54,43 +65,47 @@ def recording_objective():
             self.log = []
             self.points = []        # (log position, kind, x copy) for value / gradient
             self.keep_points = True
+            self.gradient_budget = None   # logical budget on the number of gradient() calls (None = unlimited)
+            self.gradient_calls = 0
 
-        def _rec(self, kind, xin, out):
-            self.log.append((kind, _finite(xin), _finite(out)))
+        def _logged(self, kind, xin, fn, point=None):
+            """Run fn() and log (kind, input finite, output finite).  The entry is appended BEFORE the call, so a call
+            that raises on a non-finite input (e.g. the CHOLMOD test double's finite check) is still on record."""
+            if _in_foreign_oracle():
+                return fn()
+            entry = [kind, _finite(xin), False]
+            if point is not None and self.keep_points:
+                self.points.append((len(self.log), kind, onp.array(point, dtype=float, copy=True)))
+            self.log.append(entry)
+            try:
+                out = fn()
+            except Exception:
+                entry[2] = True      # no output to judge: the entry is non-finite iff its INPUT was (entry[1])
+                raise
+            entry[2] = _finite(out) if out is not None else True
+            return out
 
         def value(self, x):
-            out = super().value(x)
-            if self.keep_points:
-                self.points.append((len(self.log), "value", onp.array(x, dtype=float, copy=True)))
-            self._rec("value", x, out)
-            return out
+            return self._logged("value", x, lambda: ObjMod.Objective.value(self, x), point=x)
 
         def gradient(self, x):
-            out = super().gradient(x)
-            if self.keep_points:
-                self.points.append((len(self.log), "gradient", onp.array(x, dtype=float, copy=True)))
-            self._rec("gradient", x, out)
-            return out
+            if not _in_foreign_oracle():
+                self.gradient_calls += 1
+                if self.gradient_budget is not None and self.gradient_calls > self.gradient_budget:
+                    raise LogicalBudgetExceeded("%d gradient calls > logical budget %d" % (self.gradient_calls, self.gradient_budget))
+            return self._logged("gradient", x, lambda: ObjMod.Objective.gradient(self, x), point=x)
 
         def hessian_vec(self, x, vx):
-            out = super().hessian_vec(x, vx)
-            self.log.append(("hessian_vec", _finite(x) and _finite(vx), _finite(out)))
-            return out
+            return self._logged("hessian_vec", (_finite(x) and _finite(vx)) or float("nan"), lambda: ObjMod.Objective.hessian_vec(self, x, vx))
 
         def apply_precond(self, vx):
-            out = super().apply_precond(vx)
-            self._rec("apply_precond", vx, out)
-            return out
+            return self._logged("apply_precond", vx, lambda: ObjMod.Objective.apply_precond(self, vx))
 
         def multiply_by_approx_hessian(self, vx):
-            out = super().multiply_by_approx_hessian(vx)
-            self._rec("mult_approx_hessian", vx, out)
-            return out
+            return self._logged("mult_approx_hessian", vx, lambda: ObjMod.Objective.multiply_by_approx_hessian(self, vx))
 
         def update_precond(self, x):
-            out = super().update_precond(x)
-            self._rec("update_precond", x, 0.0)
-            return out
+            return self._logged("update_precond", x, lambda: ObjMod.Objective.update_precond(self, x))
 
         # ---- summaries used by the checkers
         def reset_log(self):
@@ -157,6 +172,7 @@ class PathObserver:
         self.mon.register_callback(self.tool, self.mon.events.LINE, self._on_line)
 
     def watch(self, func, rules):
+        func = inspect.unwrap(func)          # contracts may already be wrapped around the module attribute
         code = func.__code__
         src, start = inspect.getsourcelines(func)
         hits = {}
